@@ -42,7 +42,8 @@ def link_harness(prop, cfg, variant, extra_key=""):
     pdir = os.path.join(VERIF, "props", prop)
     shim_srcs = sorted(glob.glob(os.path.join(pdir, "shim*.c")))
     cc, cflags, _dbg, _pf = build.VARIANTS[variant]
-    key_src = "".join(open(s).read() for s in shim_srcs) + vdir + " ".join(sorted(objs.values())) + extra_key + \
+    incs = sorted(glob.glob(os.path.join(VERIF, "engine", "*.inc")) + glob.glob(os.path.join(pdir, "*.inc")) + glob.glob(os.path.join(pdir, "*.h")))
+    key_src = "".join(open(s).read() for s in shim_srcs + incs) + vdir + " ".join(sorted(objs.values())) + extra_key + \
         json.dumps(cfg.get("link", {}), sort_keys=True)
     key = hashlib.sha256(key_src.encode()).hexdigest()[:16]
     bdir = os.path.join(build.CACHE, "bin", "%s-%s-%s" % (prop, variant, key))
